@@ -38,8 +38,8 @@ CHECKS["C27"] = dict(
             dict(spec="MCRouteTable.tla", cfg="MCRouteTable_a1.cfg", workers=8, timeout=900, thorough_only=True),
             dict(spec="MCRouteTable.tla", cfg="MCRouteTable_a2big.cfg", workers=8, timeout=900, thorough_only=True)],
     gen=dict(
-        quick=[dict(mode="edges", spec="RouteTableGen.tla", cfg="RouteTableGenEdges.cfg", depth=3, max=110, name="edges"),
-               dict(mode="sim", spec="RouteTableGen.tla", cfg="RouteTableGenSim.cfg", depth=14, num=10, max=60, name="walks")],
+        quick=[dict(mode="edges", spec="RouteTableGen.tla", cfg="RouteTableGenEdges.cfg", depth=3, max=90, name="edges"),
+               dict(mode="sim", spec="RouteTableGen.tla", cfg="RouteTableGenSim.cfg", depth=12, num=8, max=40, name="walks")],
         thorough=[dict(mode="edges", spec="RouteTableGen.tla", cfg="RouteTableGenEdges.cfg", depth=4, max=700, name="edges", timeout=1200),
                   dict(mode="sim", spec="RouteTableGen.tla", cfg="RouteTableGenSim.cfg", depth=25, num=40, max=300, name="walks")]),
     post_gen=_c27_post,
